@@ -935,9 +935,57 @@ pub fn gen_struct(u: &mut Un, ix: usize) -> TypeIR {
         }
         _ => parser_mode = true,
     }
+    // explicit annotations override exactly the piece they name; the rest still comes from the
+    // doc comment
+    let mut top = top;
+    let mut explicit_gh: Option<String> = None;
+    if parser_mode {
+        if u.chance(80) {
+            let g = format!("Explicit group of {}", name);
+            attrs.push(format!("group_help({})", lit(&g)));
+            explicit_gh = Some(g);
+        }
+    } else if u.chance(80) {
+        match u.below(4) {
+            0 => {
+                let h = format!("Explicit header of {}", name);
+                attrs.push(format!("header({})", lit(&h)));
+                top.header = Some(h);
+            }
+            1 => {
+                let f = format!("Explicit footer of {}", name);
+                attrs.push(format!("footer({})", lit(&f)));
+                top.footer = Some(f);
+            }
+            2 => {
+                let d = format!("Explicit description of {}", name);
+                attrs.push(format!("descr({})", lit(&d)));
+                top.descr = Some(d);
+            }
+            _ => {
+                let h = format!("Explicit header of {}", name);
+                let f = format!("Explicit footer of {}", name);
+                attrs.push(format!("header({})", lit(&h)));
+                attrs.push(format!("footer({})", lit(&f)));
+                top.header = Some(h);
+                top.footer = Some(f);
+            }
+        }
+    }
+    // a parser-mode type with a default for the whole group, shown in the help
+    let mut top_fallback = false;
+    if parser_mode && !boxed && u.chance(70) {
+        attrs.push(format!("fallback({}::default())", name));
+        attrs.push("debug_fallback".into());
+        top_fallback = true;
+    }
     let mut src = String::new();
     src.push_str(&doc_lines(&top.lines, ""));
-    src.push_str("#[derive(Debug, Clone, PartialEq, Bpaf)]\n");
+    if top_fallback {
+        src.push_str("#[derive(Debug, Clone, PartialEq, Bpaf, Default)]\n");
+    } else {
+        src.push_str("#[derive(Debug, Clone, PartialEq, Bpaf)]\n");
+    }
     if !attrs.is_empty() {
         src.push_str(&format!("#[bpaf({})]\n", attrs.join(", ")));
     }
@@ -949,14 +997,19 @@ pub fn gen_struct(u: &mut Un, ix: usize) -> TypeIR {
     let body = fields.twin_src(&name);
     let (twin_src, level) = if parser_mode {
         // the whole doc comment of a parser-mode type is its group help
-        let gh = doc_text(&top.lines);
+        let gh = explicit_gh.clone().or_else(|| doc_text(&top.lines));
         let tw = format!(
-            "{}{}{}.to_options()",
+            "{}{}{}{}.to_options()",
             body,
             gh.as_ref()
                 .map(|g| format!(".group_help({})", lit(g)))
                 .unwrap_or_default(),
-            if boxed { ".boxed()" } else { "" }
+            if boxed { ".boxed()" } else { "" },
+            if top_fallback {
+                format!(".fallback({}::default()).debug_fallback()", name)
+            } else {
+                String::new()
+            }
         );
         let node = match gh {
             Some(g) => Node::GroupHelp(fields.node().b(), DocSpec::plain(g)),
